@@ -290,12 +290,47 @@ class Analysis:
         same way on every path that reaches `node` (edge dominance)."""
         cfg = self.cfg(func)
         out = set()
+        stores = {}
+        for k in cfg.nodes:
+            if k.ast is None or k.kind in ('def',):
+                continue
+            for e in ([k.ast] if k.kind in ('stmt', 'for', 'with') else []):
+                tgt = []
+                if isinstance(e, ast.Assign):
+                    tgt = e.targets
+                elif isinstance(e, (ast.AugAssign, ast.AnnAssign)):
+                    tgt = [e.target]
+                elif isinstance(e, ast.For):
+                    tgt = [e.target]
+                for t in tgt:
+                    for x in ast.walk(t):
+                        if isinstance(x, ast.Name):
+                            stores.setdefault(x.id, []).append(k)
         for t in cfg.nodes:
             if t.kind != 'cond' or t is node:
                 continue
             for lab in (True, False):
                 if node.id not in reachable_without_edges(
                         cfg, cfg.entry, {(t.id, lab)}):
+                    # stale if a name of the test is re-bound between the
+                    # test and the node
+                    names = set(x.id for x in ast.walk(t.ast)
+                                if isinstance(x, ast.Name))
+                    stale = False
+                    after_t = None
+                    for nm in names:
+                        for k in stores.get(nm, ()):
+                            # ... on a path that does not pass the test again
+                            if after_t is None:
+                                after_t = set(x.id for x in cfg.reachable_from(
+                                    [m for m, lb in t.succs if lb is lab],
+                                    avoid=[t]))
+                            if k.id in after_t and k is not node and node.id in set(
+                                    x.id for x in cfg.reachable_from(
+                                        [m for m, _l in k.succs], avoid=[t])):
+                                stale = True
+                    if stale:
+                        continue
                     text, pol = self.canonical_atom(t.ast)
                     out.add((text, pol == lab))
         return out
